@@ -5,6 +5,7 @@ pub fn gen_case(profile: &str, rng: &mut Rng, out: &mut String) -> bool {
     match profile {
         "C01" => super::c01::gen_case(rng, out, false),
         "C07" => super::c01::gen_case(rng, out, true),
+        "C16" => super::c16::gen_case(rng, out),
         "C17" => super::c17::gen_case(rng, out),
         "C19" => super::c19::gen_case(rng, out),
         "C20" => super::c20::gen_case(rng, out),
